@@ -856,13 +856,49 @@ func ruleResolvedKeysWin(w *core.World, r *core.Report) {
 			iter = s.Instr
 		}
 	}
-	if found == nil || iter == nil {
+	// ... or a field of a collector object whose method is handed to the iteration as the callback
+	var foundField *ssa.FieldAddr
+	if found == nil && iter != nil {
+		if mc, ok := iter.(ssa.CallInstruction).Common().Args[0].(*ssa.MakeClosure); ok && len(mc.Bindings) == 1 {
+			if bound, isFn := mc.Fn.(*ssa.Function); isFn && bound.Synthetic != "" {
+				for _, in := range core.OwnInstrs(bound) {
+					c, isCall := in.(*ssa.Call)
+					if !isCall || c.Call.StaticCallee() == nil {
+						continue
+					}
+					m := c.Call.StaticCallee()
+					for _, g := range core.DeepFuncs(m) {
+						for _, in2 := range core.OwnInstrs(g) {
+							st, isSt := in2.(*ssa.Store)
+							if !isSt {
+								continue
+							}
+							if b, isB := core.ConstBool(st.Val); !isB || !b {
+								continue
+							}
+							if fa, isFa := st.Addr.(*ssa.FieldAddr); isFa && len(m.Params) > 0 && core.Unwrap(fa.X) == ssa.Value(m.Params[0]) {
+								foundField = fa
+							}
+						}
+					}
+				}
+			}
+		}
+	}
+	if (found == nil && foundField == nil) || iter == nil {
 		r.Undecided("resolveBisyncCommandKeys/resolved-keys-win", f.Pos(), "the node iteration or its 'answered' flag was not found")
 		return
 	}
 	isFound := func(v ssa.Value) bool {
 		ld, ok := core.Unwrap(v).(*ssa.UnOp)
-		return ok && ld.Op == token.MUL && core.Cell(ld.X) == found
+		if !ok || ld.Op != token.MUL {
+			return false
+		}
+		if foundField != nil {
+			fa, isFa := ld.X.(*ssa.FieldAddr)
+			return isFa && fa.Field == foundField.Field && types.Identical(recordOf(fa), recordOf(foundField))
+		}
+		return core.Cell(ld.X) == found
 	}
 	bad := ""
 	var pos token.Pos = f.Pos()
